@@ -900,3 +900,251 @@ func init() {
 			return out
 		}})
 }
+
+// MODCARRY — a value reduced modulo the prime of one iteration is not carried into the next.
+//
+// A sample (or any integer) that is written in RNS form is reduced once per prime: `c := x; if c >= qi { c %= qi }`.
+// Reducing the shared variable itself (`x %= qi`) makes the next residue (x mod q_j) mod q_{j+1}: the residues no longer
+// encode one integer as soon as the value exceeds a prime that is not the last one.
+//
+// Rule: inside a loop, `v %= m` / `v = v % m` with m bound by that loop (its range value or index, a local defined in
+// its body, or an element indexed by its variable) does not assign a variable v declared outside that loop's body —
+// unless the same body assigns v afresh before the reduction (v is then a per-iteration temporary).
+func scanModCarry(c *core.Ctx) []ob {
+	var out []ob
+	n := 0
+	c.FuncDecls(func(pk *packages.Package, file *ast.File, fd *ast.FuncDecl) {
+		if fd.Body == nil || fileIsTestSupport(c.Program, fd.Pos()) || inExamples(pk) {
+			return
+		}
+		info := pk.TypesInfo
+		fkey := core.FuncKey(pk, fd)
+		pm := parentMap(fd.Body)
+		ast.Inspect(fd.Body, func(x ast.Node) bool {
+			as, ok := x.(*ast.AssignStmt)
+			if !ok || len(as.Lhs) != 1 || len(as.Rhs) != 1 {
+				return true
+			}
+			vid, ok := unparen(as.Lhs[0]).(*ast.Ident)
+			if !ok {
+				return true
+			}
+			var mod ast.Expr
+			switch as.Tok {
+			case token.REM_ASSIGN:
+				mod = as.Rhs[0]
+			case token.ASSIGN:
+				if be, ok := unparen(as.Rhs[0]).(*ast.BinaryExpr); ok && be.Op == token.REM {
+					if l, ok := unparen(be.X).(*ast.Ident); ok && info.Uses[l] == info.Uses[vid] {
+						mod = be.Y
+					}
+				}
+			}
+			if mod == nil {
+				return true
+			}
+			v := info.Uses[vid]
+			if v == nil {
+				return true
+			}
+			// innermost enclosing loop that binds the modulus
+			for p := pm[ast.Node(as)]; p != nil; p = pm[p] {
+				var body *ast.BlockStmt
+				bound := map[types.Object]bool{}
+				switch l := p.(type) {
+				case *ast.RangeStmt:
+					body = l.Body
+					for _, e := range []ast.Expr{l.Key, l.Value} {
+						if id, ok := e.(*ast.Ident); ok && id != nil {
+							if o := info.Defs[id]; o != nil {
+								bound[o] = true
+							}
+						}
+					}
+				case *ast.ForStmt:
+					body = l.Body
+					if init, ok := l.Init.(*ast.AssignStmt); ok {
+						for _, e := range init.Lhs {
+							if o := identObj(info, e); o != nil {
+								bound[o] = true
+							}
+						}
+					}
+				default:
+					continue
+				}
+				// locals defined in the body count as bound by the loop
+				ast.Inspect(body, func(y ast.Node) bool {
+					if d, ok := y.(*ast.AssignStmt); ok && d.Tok == token.DEFINE {
+						for _, e := range d.Lhs {
+							if id, ok := e.(*ast.Ident); ok {
+								if o := info.Defs[id]; o != nil {
+									bound[o] = true
+								}
+							}
+						}
+					}
+					return true
+				})
+				modBound := false
+				ast.Inspect(mod, func(y ast.Node) bool {
+					if id, ok := y.(*ast.Ident); ok && bound[info.Uses[id]] {
+						modBound = true
+					}
+					return true
+				})
+				if !modBound {
+					continue
+				}
+				n++
+				key := fmt.Sprintf("MODCARRY:%s#%s%%%s", fkey, vid.Name, exprString(mod))
+				if bound[v] || (v.Pos() >= body.Pos() && v.Pos() < body.End()) {
+					out = append(out, withProps(okOb("MODCARRY", key, c.Rel(as.Pos()), "the reduced variable belongs to the iteration", true), propsForKey(fkey)...))
+					break
+				}
+				// assigned afresh earlier in the same body?
+				fresh := false
+				ast.Inspect(body, func(y ast.Node) bool {
+					if d, ok := y.(*ast.AssignStmt); ok && d.Pos() < as.Pos() && d != as && (d.Tok == token.ASSIGN) {
+						for i, e := range d.Lhs {
+							if identObj(info, e) == v && len(d.Lhs) == len(d.Rhs) {
+								uses := false
+								ast.Inspect(d.Rhs[i], func(z ast.Node) bool {
+									if id, ok := z.(*ast.Ident); ok && info.Uses[id] == v {
+										uses = true
+									}
+									return true
+								})
+								if !uses {
+									fresh = true
+								}
+							}
+						}
+					}
+					return true
+				})
+				if fresh {
+					out = append(out, withProps(okOb("MODCARRY", key, c.Rel(as.Pos()), "the variable is assigned afresh in the iteration before it is reduced", true), propsForKey(fkey)...))
+				} else {
+					out = append(out, withProps(violOb("MODCARRY", key, c.Rel(as.Pos()), fmt.Sprintf("%s reduces %s, which lives across the iterations, modulo %s of the current iteration: the next iteration starts from the residue instead of the value, so the residues no longer encode one integer once the value exceeds a prime that is not the last", fkey, vid.Name, exprString(mod))), propsForKey(fkey)...))
+				}
+				break
+			}
+			return true
+		})
+	})
+	c.Stats["modcarry_sites"] = n
+	return out
+}
+
+// DIGITMAX — a loop over the digits of a jagged gadget matrix runs to the longest row.
+//
+// With a power-of-two decomposition the rows of a gadget ciphertext have one entry per digit of their own prime
+// (BaseTwoDecompositionVectorSize[i]); the loops over the digit index j therefore run to slices.Max(sizes) and skip the
+// rows that are exhausted (`if j < sizes[i]`). Bounding the digit loop by the length of row 0 drops the top digits of
+// every later prime that is larger than the first.
+//
+// Rule: a loop over j whose body tests j against an element of a size table indexed by an inner loop variable
+// (`j < sizes[i]`) is not bounded by (the length of) an element [0] of a container.
+func scanDigitMax(c *core.Ctx) []ob {
+	var out []ob
+	n := 0
+	c.FuncDecls(func(pk *packages.Package, file *ast.File, fd *ast.FuncDecl) {
+		if fd.Body == nil || fileIsTestSupport(c.Program, fd.Pos()) || inExamples(pk) {
+			return
+		}
+		info := pk.TypesInfo
+		fkey := core.FuncKey(pk, fd)
+		ord := 0
+		ast.Inspect(fd.Body, func(x ast.Node) bool {
+			var j types.Object
+			var bound ast.Expr
+			var body *ast.BlockStmt
+			switch l := x.(type) {
+			case *ast.ForStmt:
+				if init, ok := l.Init.(*ast.AssignStmt); ok && len(init.Lhs) == 1 {
+					j = identObj(info, init.Lhs[0])
+				}
+				if be, ok := l.Cond.(*ast.BinaryExpr); ok && (be.Op == token.LSS || be.Op == token.LEQ) {
+					bound = be.Y
+				}
+				body = l.Body
+			case *ast.RangeStmt:
+				if id, ok := l.Key.(*ast.Ident); ok && id != nil {
+					j = info.Defs[id]
+				}
+				bound = l.X
+				body = l.Body
+			}
+			if j == nil || bound == nil || body == nil {
+				return true
+			}
+			// the body tests j against sizes[i] with i bound by an inner loop
+			guarded := false
+			ast.Inspect(body, func(y ast.Node) bool {
+				is, ok := y.(*ast.IfStmt)
+				if !ok {
+					return true
+				}
+				be, ok := unparen(is.Cond).(*ast.BinaryExpr)
+				if !ok || be.Op != token.LSS {
+					return true
+				}
+				if identObj(info, be.X) != j {
+					return true
+				}
+				if ix, ok := unparen(be.Y).(*ast.IndexExpr); ok {
+					if iv := identObj(info, ix.Index); iv != nil && iv.Pos() > body.Pos() && iv.Pos() < body.End() {
+						guarded = true
+					}
+				}
+				return true
+			})
+			if !guarded {
+				return true
+			}
+			ord++
+			n++
+			key := fmt.Sprintf("DIGITMAX:%s#%d", fkey, ord)
+			// resolve a local bound
+			bs := exprString(bound)
+			if o := identObj(info, bound); o != nil {
+				if d := singleDef(info, fd, o); d != nil {
+					bs = exprString(d)
+				}
+			}
+			if strings.Contains(bs, "[0]") {
+				out = append(out, withProps(violOb("DIGITMAX", key, c.Rel(bound.Pos()), fmt.Sprintf("%s bounds the loop over the digit index %s by %s, one particular row, although the rows have one entry per digit of their own prime (the body tests %s against the per-row size): the top digits of every row longer than that one are never reached", fkey, j.Name(), bs, j.Name())), propsForKey(fkey)...))
+			} else {
+				out = append(out, withProps(okOb("DIGITMAX", key, c.Rel(bound.Pos()), "the digit loop is bounded by "+bs, true), propsForKey(fkey)...))
+			}
+			return true
+		})
+	})
+	c.Stats["digitmax_loops"] = n
+	return out
+}
+
+func init() {
+	core.Register(&core.Rule{Name: "MODCARRY", Wide: true, Props: []string{"C17", "C07", "C02"},
+		Doc: "inside a loop, `v %= m` (or v = v % m) with m bound by that loop never reduces a variable that lives across the iterations, unless the iteration assigns it afresh first: the residues of one value modulo several primes are each taken from the value, not from the previous residue",
+		Run: func(c *core.Ctx) []ob {
+			out := scanModCarry(c)
+			for _, o := range control(c, "MODCARRY", scanModCarry, "lvfixture.spreadSample") {
+				out = append(out, withProps(o, "C17"))
+			}
+			return out
+		}})
+	core.Register(&core.Rule{Name: "DIGITMAX", Wide: true, Props: []string{"C14", "C04", "C20"},
+		Doc: "a loop over a digit index j whose body tests j against a per-row size (j < sizes[i]) is not bounded by an element [0] of a container: the digit loop of a jagged gadget matrix runs to the longest row",
+		Run: func(c *core.Ctx) []ob {
+			out := scanDigitMax(c)
+			for _, o := range core.Floor("DIGITMAX", nil, "digit loops over jagged rows", c.Stats["digitmax_loops"], 3) {
+				out = append(out, withProps(o, "C14"))
+			}
+			for _, o := range control(c, "DIGITMAX", scanDigitMax, "lvfixture.fillDigits") {
+				out = append(out, withProps(o, "C14"))
+			}
+			return out
+		}})
+}
